@@ -608,9 +608,20 @@ func checkPostOnConcrete(p *Program, r *oblResult, fn *ssa.Function, args []conc
 			e.names[rn] = results[i]
 		}
 	}
+	before := map[string]bool{}
+	for k := range st {
+		before[k] = true
+	}
 	t, err := g.elabBool(clause.E, e)
 	if err != nil {
 		return "unknown", err.Error()
+	}
+	// The harness observes results only. A clause that reads the heap (fields, maps, cells) speaks about a
+	// post-state this run did not capture: evaluating it over an unconstrained heap would "refute" anything.
+	for k := range st {
+		if !before[k] && !strings.HasPrefix(k, "E_") && k != "alloctop" && k != epochKey {
+			return "unknown", "the clause reads heap component " + k + ", which the replay harness does not observe"
+		}
 	}
 	obsJSON, _ := json.Marshal(observed)
 	// is the clause false on this concrete I/O for some admissible ghost?  (sat of ¬clause)
